@@ -1,5 +1,5 @@
 SPEC = {
-    "lean_modules": ["AM.Props.C09"],
+    "lean_modules": ["AM.Props.C09", "AM.Props.C02"],
     "theorems": [
         "AM.Silence.merge_refuses_past_retention", "AM.Silence.merge_monotone", "AM.Silence.merge_result",
         "AM.Silence.merge_idem_no_gossip", "AM.Silence.merge_old_no_gossip",
@@ -8,6 +8,7 @@ SPEC = {
         "AM.Silence.decodeBatch_last_wins", "AM.Silence.mergeBatch_st",
         "AM.Silence.set_state_is_merge", "AM.Silence.expire_state_is_merge",
         "AM.Silence.index_inv_preserved", "AM.Silence.query_eq_filter",
+        "AM.Silence.reload_lossless", "AM.Silence.effective_after_merge",
     ],
     "engines": [
         {"name": "silmerge", "pkg": "./silmerge", "search_cases": 20000},
